@@ -336,12 +336,12 @@ func (s *c01Scenario) onClose(m *monitor, cs *connState, c gnet.Conn, err error)
 }
 
 type c01Peer struct {
+	sent    int64 // first: accessed atomically (alignment on 32-bit platforms)
 	conn    net.Conn
 	key     uint64
 	length  int
 	segCls  string
 	endKind string
-	sent    int64
 	err     error
 }
 
